@@ -2,7 +2,8 @@ SPECIFICATION MCSpec
 CONSTANTS
   Block = 256
   ClsStride = 1
-  Stride16 = 16
+  Stride8 = 1
+  Stride16 = 64
   Emit = TRUE
 INVARIANTS Inv
 CHECK_DEADLOCK FALSE
